@@ -286,7 +286,7 @@ def ch_segserve(ctx) -> Channel:
     leeway_us = int(OptionsRepository.get_default_options().leeway) * 10 ** 6
     lines, recs = [], []
     with appboot.Clock("2023-01-01T00:00:00Z") as clock:
-        for stream, url, now in e2e_cases(ctx, rng, ctx.scale(16, 500)):
+        for stream, url, now in e2e_cases(ctx, rng, ctx.scale(32, 500)):
             trk = segchecks.tracks(app, stream)
             mpd, status, fetches = segchecks.walk_manifest(app, client, clock, stream, url, now, rng,
                                                            per_rep=ctx.scale(6, 14), want_init=True)
